@@ -236,6 +236,16 @@ def make_providers() -> list[Provider]:
                           lambda k, f=f: f(k), _graph_observe, gm))
     P.append(Provider('conversion_graph', (('tof', 'dspacing', True, 'elastic'), ('tof', 'energy_transfer', True, 'direct_inelastic')),
                       lambda k: conversions.conversion_graph(*k), _graph_observe, gm))
+    # same origin, geometry target vs dynamic target / scatter vs no scatter: a result must not
+    # depend on which graph was asked for first
+    for i, pair in enumerate(((('tof', 'two_theta', True, 'elastic'), ('tof', 'wavelength', True, 'elastic')),
+                              (('wavelength', 'L2', True, 'elastic'), ('wavelength', 'Q', True, 'elastic')),
+                              (('tof', 'wavelength', False, 'elastic'), ('tof', 'wavelength', True, 'elastic')),
+                              (('tof', 'energy_transfer', True, 'indirect_inelastic'), ('tof', 'Ltotal', True, 'elastic')),
+                              (('energy', 'Ltotal', True, 'elastic'), ('energy', 'wavelength', True, 'elastic')),
+                              (('Q', 'L1', True, 'elastic'), ('Q', 'wavelength', True, 'elastic')))):
+        P.append(Provider(f'conversion_graph (key pair {i + 1}: {pair[0][0]}->{pair[0][1]} / {pair[1][0]}->{pair[1][1]})',
+                          pair, lambda k: conversions.conversion_graph(*k), _graph_observe, gm))
     # model combinators
     bases = {1: pm.GaussianModel(prefix='g_'), 2: pm.PolynomialModel(degree=2, prefix='b_')}
     P.append(Provider('peaks.Model.with_prefix', (1, 2), lambda k: bases[k].with_prefix('p_'),
